@@ -194,7 +194,138 @@ def run(ctx):
                 res.mismatch(op[:300], want[:200], out[:200])
         res.extra['model_evaluations'] = len(ops)
     res.extra['exhaustive_small_universe'] = exhaustive
+    end_to_end(ctx, res)
     return res
+
+
+# ---------------------------------------------------------------------------- end to end, through the real handlers
+
+def end_to_end(ctx, res):
+    """pairs of connection configurations through the real IKE_SA handlers (two-endpoint world): the suite installed for the
+    IKE_SA and for each CHILD_SA (initial, additional with PFS, rekey) is the one the specification picks — one transform per
+    type of the responder's policy, the first of that type in the responder's order that the initiator offered — or the
+    negotiation is refused with NO_PROPOSAL_CHOSEN and nothing is installed; a KE payload in another group is answered with
+    INVALID_KE_PAYLOAD naming the chosen group and the retry succeeds"""
+    import campaign as CP
+    import stateful as S
+    rng = ctx.rng
+    encs, hashes, dhs = ['aes128', 'aes256'], ['sha1', 'sha256', 'sha512'], ['19', '20', '21']
+    ENC = {'aes128': (1, 12, 128), 'aes256': (1, 12, 256)}
+    INT = {'sha1': (3, 2, None), 'sha256': (3, 12, None), 'sha512': (3, 14, None)}
+    PRF = {'sha1': (2, 2, None), 'sha256': (2, 5, None), 'sha512': (2, 7, None)}
+
+    def pick(l, lo=1):
+        x = rng.sample(l, rng.randrange(lo, len(l) + 1))
+        return x
+
+    def spec_choice(resp, init):
+        """per type in the responder's order: first of the responder's transforms of that type the initiator offered"""
+        out, types = [], []
+        for t in resp:
+            if t[0] not in types:
+                types.append(t[0])
+        for ty in types:
+            c = next((t for t in resp if t[0] == ty and t in init), None)
+            if c is None:
+                return None
+            out.append(c)
+        return out
+    n = ctx.scale(60, 1500)
+    for k in range(n):
+        a = {'encr': pick(encs), 'integ': pick(hashes), 'prf': pick(hashes), 'dh': pick(dhs), 'cenc': pick(encs), 'cint': pick(hashes),
+             'cdh': pick(dhs, 0)}
+        b = {'encr': pick(encs), 'integ': pick(hashes), 'prf': pick(hashes), 'dh': pick(dhs), 'cenc': pick(encs), 'cint': pick(hashes),
+             'cdh': pick(dhs, 0)}
+        for key in ('encr', 'integ', 'prf', 'dh', 'cenc', 'cint', 'cdh'):
+            # mostly-compatible pairs: a disjoint type refuses the whole negotiation and hides the other choices
+            if rng.random() < 0.8 and a[key] and not set(a[key]) & set(b[key]):
+                b[key].insert(rng.randrange(len(b[key]) + 1), rng.choice(a[key]))
+        conf = {'encr': a['encr'], 'integ': a['integ'], 'prf': a['prf'], 'dh': a['dh'], 'child_encr': a['cenc'], 'child_integ': a['cint'],
+                'encr_b': b['encr'], 'integ_b': b['integ'], 'prf_b': b['prf'], 'dh_b': b['dh'], 'child_encr_b': b['cenc'], 'child_integ_b': b['cint'],
+                'dpd': 5000, 'ike_lifetime': 5000}
+        conf['child_dh'] = a['cdh']        # [] = no PFS on that side (must be explicit: `_b` falls back to A's value)
+        conf['child_dh_b'] = b['cdh']
+        seed = rng.randrange(1 << 30)
+        ike_a = [ENC[x] for x in a['encr']] + [INT[x] for x in a['integ']] + [PRF[x] for x in a['prf']] + [(4, int(x), None) for x in a['dh']]
+        ike_b = [ENC[x] for x in b['encr']] + [INT[x] for x in b['integ']] + [PRF[x] for x in b['prf']] + [(4, int(x), None) for x in b['dh']]
+        ch_a = [ENC[x] for x in a['cenc']] + [INT[x] for x in a['cint']] + [(4, int(x), None) for x in a['cdh']] + [(5, 0, None)]
+        ch_b = [ENC[x] for x in b['cenc']] + [INT[x] for x in b['cint']] + [(4, int(x), None) for x in b['cdh']] + [(5, 0, None)]
+        nodh = lambda l: [t for t in l if t[0] != 4]
+        rep = {'seed': seed, 'conf': {x: str(y) for x, y in conf.items()}}
+        res.evaluations += 1
+        res.nontrivial.add(('e2e', repr(sorted(conf.items()))))
+        with CP.History(seed, trace=False, **conf) as h:
+            h.oracles = [CP.o_no_escape, CP.o_sad_equals_tracked]
+            w = h.w
+            h.op('acquire', 'A', 8765)
+            h.settle(40)
+            want_ike = spec_choice(ike_b, ike_a)
+            sa_a = next((x for x in w.A.sas() if int(x.state) == 10), None)
+            sa_b = next((x for x in w.B.sas() if int(x.state) == 10), None)
+            tr = lambda p: [(int(t.type), int(t.id), t.keylen) for t in p.transforms]
+            if want_ike is None:
+                res.count('e2e:ike-no-common-suite')
+                if sa_a or sa_b or w.A.kernel.sad or w.B.kernel.sad:
+                    res.fail('e2e-established-without-common-suite', 'IKE_SA established although the offers share no complete suite', rep)
+                continue
+            if not sa_a or not sa_b:
+                res.fail('e2e-compatible-refused', 'IKE offers share the suite %s but no IKE_SA was established: A %s B %s'
+                         % (want_ike, [x.state.name for x in w.A.sas()], [x.state.name for x in w.B.sas()]), rep)
+                continue
+            if sorted(tr(sa_a.chosen_proposal), key=str) != sorted(want_ike, key=str) or sorted(tr(sa_b.chosen_proposal), key=str) != sorted(want_ike, key=str):
+                res.fail('e2e-ike-suite', 'IKE_SA suite %s / %s, the specification picks %s' % (tr(sa_a.chosen_proposal), tr(sa_b.chosen_proposal), want_ike), rep)
+            res.count('e2e:ike-established')
+            # piggy-backed CHILD_SA: no DH transform
+            want_c0 = spec_choice(nodh(ch_b), nodh(ch_a))
+            kids_b = sa_b.child_sas
+            if want_c0 is None:
+                if kids_b or sa_a.child_sas:
+                    res.fail('e2e-child-without-common-suite', 'CHILD_SA created although the CHILD offers share no suite', rep)
+            elif not kids_b or not sa_a.child_sas:
+                res.fail('e2e-child-compatible-refused', 'CHILD offers share %s but no CHILD_SA was created with IKE_AUTH' % want_c0, rep)
+            elif sorted(tr(kids_b[0].proposal), key=str) != sorted(want_c0, key=str) or sorted(tr(sa_a.child_sas[0].proposal), key=str) != sorted(want_c0, key=str):
+                res.fail('e2e-child-suite', 'piggy-backed CHILD_SA suite %s, the specification picks %s' % (tr(kids_b[0].proposal), want_c0), rep)
+            # additional CHILD_SA (with PFS when configured): A asks, B's policy decides; then B asks, A's policy decides
+            for who, resp_tr, init_tr in (('A', ch_b, ch_a), ('B', ch_a, ch_b)):
+                ep, peer = (w.A, w.B) if who == 'A' else (w.B, w.A)
+                est = lambda e: next((x for x in e.sas() if int(x.state) == 10), None)
+                me, other = est(ep), est(peer)
+                if me is None or other is None:
+                    break
+                n0, m0 = len(me.child_sas), len(other.child_sas)
+                h.op('acquire', who, 4000 + k)
+                h.settle(40)
+                # the responder picks per type of ITS policy; the initiator accepts a suite that has one transform of every
+                # type of ITS offer (a responder without PFS answering an offer that demands PFS is refused by the initiator)
+                want = spec_choice(resp_tr, init_tr)
+                accepted = want is not None and set(t[0] for t in want) == set(t[0] for t in init_tr)
+                me, other = est(ep), est(peer)
+                res.count('e2e:child-%s' % ('refused' if want is None else 'created' if accepted else 'chosen-but-initiator-refuses'))
+                if me is None or other is None:
+                    if accepted:
+                        res.fail('e2e-child-compatible-refused', 'CHILD offers share %s but the negotiation ended the IKE_SA (requested by %s)' % (want, who), rep)
+                    break
+                if want is None:
+                    if len(other.child_sas) != m0 or len(me.child_sas) != n0:
+                        res.fail('e2e-child-without-common-suite', 'CHILD_SA created although the offers share no suite (requested by %s)' % who, rep)
+                    continue
+                if not accepted:
+                    # the initiator refuses the response and has the responder delete what it created: nothing remains
+                    if len(me.child_sas) != n0 or len(other.child_sas) != m0:
+                        res.fail('e2e-initiator-accepted-incomplete-suite', 'a CHILD_SA remains although the response lacked a transform type the '
+                                 'initiator demanded (requested by %s): initiator %d→%d, responder %d→%d'
+                                 % (who, n0, len(me.child_sas), m0, len(other.child_sas)), rep)
+                    continue
+                if len(other.child_sas) != m0 + 1:
+                    res.fail('e2e-child-compatible-refused', 'CHILD offers share %s but the responder created no CHILD_SA (requested by %s)' % (want, who), rep)
+                elif sorted(tr(other.child_sas[-1].proposal), key=str) != sorted(want, key=str):
+                    res.fail('e2e-child-suite', 'responder CHILD_SA suite %s, the specification picks %s (requested by %s)' % (tr(other.child_sas[-1].proposal), want, who), rep)
+                if len(me.child_sas) != n0 + 1:
+                    res.fail('e2e-child-compatible-refused', 'CHILD offers share %s but the initiator created no CHILD_SA (requested by %s)' % (want, who), rep)
+                elif sorted(tr(me.child_sas[-1].proposal), key=str) != sorted(want, key=str):
+                    res.fail('e2e-child-suite', 'initiator CHILD_SA suite %s, the specification picks %s (requested by %s)' % (tr(me.child_sas[-1].proposal), want, who), rep)
+            for key, what, at in h.findings[:2]:
+                res.fail(key, what, dict(rep, ops=S.ser_ops(h.ops[:at + 1])))
 
 
 def replay(rep):
